@@ -77,6 +77,7 @@ type histRun struct {
 	reqTarget    map[int]map[uint64]string // call/new requests → target rid
 	driftTag     map[string]string         // "cid rid" → known-finding tag of a counter seen off before
 	counterSeen  map[string]bool           // structural violations already reported (they persist)
+	strayCause   map[string]string         // "cid rid" of a stray event → the tags it got (its cause)
 	// ppoints: clock values at which the gateway was idle with at most service
 	// requests outstanding (everything published before has been processed)
 	ppoints       []int64
@@ -1282,6 +1283,22 @@ func (h *histRun) checkQuiescent(final bool) {
 			}
 			if v.Prop == "C02" && v.DropT > 0 && rc.TargetPendingAt(v.RID, v.DropT) {
 				v.Sig += ".droppedWhilePending"
+			}
+			// a resource (or its holder) that was carried by an ignored stray event
+			// shares the cause of that stray event
+			if v.Prop == "C02" && !strings.Contains(v.Sig, ".") {
+				for _, r := range []string{v.RID, v.Holder} {
+					if sr := rc.LostInStray[r]; r != "" && sr != "" && h.strayCause[c.CID+" "+sr] != "" {
+						v.Sig += h.strayCause[c.CID+" "+sr]
+						break
+					}
+				}
+			}
+			if v.Prop == "C02" && strings.HasPrefix(v.Sig, "strayEvent.") {
+				if h.strayCause == nil {
+					h.strayCause = map[string]string{}
+				}
+				h.strayCause[c.CID+" "+v.RID] = v.Sig[len("strayEvent"):]
 			}
 			if h.hasNote("populate.deleted", c.CID, v.RID) || (v.Prop == "C02" && v.Sig == "dangling" && v.Holder != "" && h.hasNote("populate.deleted", c.CID, v.Holder)) ||
 				(v.Prop == "C02" && h.driftTag[c.CID+" "+v.RID] == ".populateDeleted") {
